@@ -15,9 +15,10 @@ verus! {
 // ---- 32-lane block classification (src/util/string.rs). Contracts proved by Kani:
 //   string_block_new_lanes (masks == lane classes, pairwise disjoint), string_block_classification_all,
 //   bitmask_before_u32_all.
-pub struct StringBlock { pub bs_bits: u32, pub quote_bits: u32, pub unescaped_bits: u32 }
+#[verifier::reject_recursive_types(B)]
+pub struct StringBlock<B> { pub bs_bits: u32, pub quote_bits: u32, pub unescaped_bits: u32, pub _p: core::marker::PhantomData<B> }
 pub open spec fn tz32(m: u32) -> int { vstd::std_specs::bits::u32_trailing_zeros(m) as int }
-impl StringBlock {
+impl StringBlock<u32> {
     pub const LANES: usize = 32;
     #[verifier::external_body]
     pub fn new(v: &u8x32) -> (b: Self)
@@ -70,7 +71,69 @@ pub proof fn lemma_tz32_facts(m: u32)
     }
 }
 
+// substitution target for `unsafe { hex_to_u32_nocheck(&*(asc.as_ptr()[.add(2)] as *const _ as *const [u8; 4])) }`:
+// value of four hex digits, or a value above 0xFFFF if any of them is not a hex digit
+// (hex_to_u32_nocheck: Kani hex_to_u32_all_quads, all 2^32 inputs)
+pub open spec fn hexv(c: u8) -> int {
+    if 0x30 <= c <= 0x39 { c - 0x30 } else if 0x41 <= c <= 0x46 { c - 0x41 + 10 } else { c - 0x61 + 10 }
+}
+pub open spec fn hex4_val(s: Seq<u8>, i: int) -> int { hexv(s[i]) * 4096 + hexv(s[i + 1]) * 256 + hexv(s[i + 2]) * 16 + hexv(s[i + 3]) }
+pub open spec fn hex4_ok(s: Seq<u8>, i: int) -> bool { is_hex(s[i]) && is_hex(s[i + 1]) && is_hex(s[i + 2]) && is_hex(s[i + 3]) }
+#[verifier::external_body]
+pub fn hex4_at(asc: &[u8], off: usize) -> (r: u32)
+    requires off + 4 <= asc@.len(),
+    ensures hex4_ok(asc@, off as int) ==> r == hex4_val(asc@, off as int) && r <= 0xffff,
+        !hex4_ok(asc@, off as int) ==> r > 0xffff,
+{ unimplemented!() }
+
+// what one `\uXXXX` escape (reader just after the `u`) denotes: (code point, bytes consumed), or None = reject.
+// RFC 8259 §7: a high surrogate must be followed by `\u` + low surrogate; lossy mode replaces every unpaired
+// surrogate by U+FFFD and consumes nothing but that one escape.
+pub open spec fn uni_escape(s: Seq<u8>, i: int, lossy: bool) -> Option<(int, int)> {
+    if !(0 <= i && i + 4 <= s.len()) || !hex4_ok(s, i) { None }
+    else {
+        let c1 = hex4_val(s, i);
+        if 0xD800 <= c1 < 0xDC00 {
+            if i + 10 <= s.len() && s[i + 4] == 0x5c && s[i + 5] == 0x75 && hex4_ok(s, i + 6)
+                && 0xDC00 <= hex4_val(s, i + 6) < 0xE000 {
+                Some((0x10000 + (c1 - 0xD800) * 1024 + (hex4_val(s, i + 6) - 0xDC00), 10))
+            } else if lossy { Some((0xFFFD, 4)) } else { None }
+        } else if 0xDC00 <= c1 < 0xE000 {
+            if lossy { Some((0xFFFD, 4)) } else { None }
+        } else { Some((c1, 4)) }
+    }
+}
+
 impl<'de, R: Reader<'de>> Parser<R> {
+//@extract file=src/parser.rs impl="Parser<R>" fn=parse_escaped_utf8
+//@subst /unsafe \{ hex_to_u32_nocheck\(&\*\(asc\.as_ptr\(\) as \*const _ as \*const \[u8; 4\]\)\) \}/ => hex4_at(asc, 0)
+//@subst /unsafe \{ hex_to_u32_nocheck\(&\*\(asc\.as_ptr\(\)\.add\(2\) as \*const _ as \*const \[u8; 4\]\)\) \}/ => hex4_at(asc, 2)
+//@subst /\(0xD800\.\.0xDC00\)\.contains\(&point1\)/ => (0xD800 <= point1 && point1 < 0xDC00)
+//@subst /\(0xDC00\.\.0xE000\)\.contains\(&point1\)/ => (0xDC00 <= point1 && point1 < 0xE000)
+//@sig
+        requires old(self).pinv(),
+        ensures final(self).pinv(), final(self).same_doc(old(self)), final(self).same_cache(old(self)),
+            ({
+                let s = old(self).read.data();
+                let i = old(self).read.idx() as int;
+                let want = uni_escape(s, i, old(self).cfg.utf8_lossy);
+                // a bad-hex escape is not rejected here: the caller rejects the out-of-range value it yields
+                &&& (want.is_some() ==> res.is_ok() && res.unwrap() == want.unwrap().0 && final(self).read.idx() == i + want.unwrap().1)
+                &&& (want.is_none() && i + 4 <= s.len() && hex4_ok(s, i) ==> res.is_err())
+                &&& (res.is_ok() && want.is_none() ==> res.unwrap() > 0xffff)
+            }),
+//@after /let low_bit = point2\.wrapping_sub\(0xdc00\);/
+            proof {
+                assert(((point2.wrapping_sub(0xdc00u32)) >> 10u32) == 0 <==> (0xdc00u32 <= point2 && point2 < 0xe000u32)) by (bit_vector);
+            }
+//@before /Ok\(\(\(\(point1 - 0xd800\) << 10\) \| low_bit\)\.wrapping_add\(0x10000\)\)/
+            proof {
+                assert(low_bit < 1024 ==> (((point1 - 0xd800) as u32) << 10u32 | low_bit) == ((point1 - 0xd800) as u32) * 1024 + low_bit) by (bit_vector)
+                    requires point1 >= 0xd800, point1 < 0xdc00;
+                assert((low_bit >> 10u32) == 0 <==> low_bit < 1024) by (bit_vector);
+            }
+//@end
+
     // the copying half (raw writes into Vec spare capacity: unsafe, outside Verus): assumed acceptance contract
     #[verifier::external_body]
     pub unsafe fn parse_string_escaped<'own>(&mut self, buf: &'own mut Vec<u8>) -> (res: Result<ParsedSlice<'de, 'own>>)
@@ -79,6 +142,7 @@ impl<'de, R: Reader<'de>> Parser<R> {
             res.is_ok() ==> res.unwrap() is Copied
                 && str_end(old(self).read.data(), old(self).read.idx() - 1) == Some(final(self).read.idx() as int),
             str_end(old(self).read.data(), old(self).read.idx() - 1).is_none() ==> res.is_err(),
+            final(self).read.idx() >= old(self).read.idx(),
     { unimplemented!() }
 
 //@extract file=src/parser.rs impl="Parser<R>" fn=parse_string_raw
@@ -129,14 +193,20 @@ impl<'de, R: Reader<'de>> Parser<R> {
                 }
 //@before /self\.read\.eat\(block\.unescaped_index\(\)\);/
                 proof {
+                    // a control byte before the first quote byte of the block: no well-formed literal can
+                    // contain it (it cannot be part of an escape) nor end before it
                     let u = tz32(block.unescaped_bits);
-                    assert forall|j: int| base <= j < base + u implies plain_char(#[trigger] s[j]) by {
-                        assert(!bit32(block.quote_bits, j - base));
-                        assert(!bit32(block.unescaped_bits, j - base));
-                        assert(!bit32(block.bs_bits, j - base));
-                    }
                     assert(s[base + u] <= 0x1f) by { assert(bit32(block.unescaped_bits, u)); }
-                    lemma_plain_run(s, base, u);
+                    if str_end(s, i0).is_some() {
+                        let e = str_end(s, i0).unwrap();
+                        lemma_str_no_ctrl(s, i0);
+                        lemma_str_end_bounds(s, i0);
+                        // the closing quote is a quote byte; none exists in [i0, base + u]
+                        assert forall|j: int| i0 <= j <= base + u implies s[j] != 0x22 by {
+                            if j >= base { assert(!bit32(block.quote_bits, j - base)); }
+                        }
+                        assert(e - 1 > base + u);
+                    }
                 }
 //@after /let cnt = block\.bs_index\(\);/
                 proof {
@@ -148,6 +218,12 @@ impl<'de, R: Reader<'de>> Parser<R> {
                     assert(s[base + cnt] == 0x5c) by { assert(bit32(block.bs_bits, cnt as int)); }
                     lemma_plain_run(s, base, cnt as int);
                 }
+//@before /return unsafe \{ self\.parse_string_escaped\(buf\) \};/ #1
+                let ghost bsp = self.read.idx() as int - 1;
+                proof {
+                    lemma_has_bs_witness(s, i0, bsp, bsp + 1);
+                    if str_end(s, bsp).is_some() { lemma_str_end_bounds(s, bsp); lemma_has_bs_witness(s, i0, bsp, str_end(s, bsp).unwrap()); }
+                }
 //@before /self\.read\.eat\(StringBlock::LANES\);/
             proof {
                 assert forall|j: int| base <= j < base + 32 implies plain_char(#[trigger] s[j]) by {
@@ -158,6 +234,12 @@ impl<'de, R: Reader<'de>> Parser<R> {
                 lemma_plain_run(s, base, 32);
                 lemma_has_bs_extend(s, i0, base, base + 32);
             }
+//@before /return unsafe \{ self\.parse_string_escaped\(buf\) \};/ #2
+                    let ghost bsp2 = self.read.idx() as int - 1;
+                    proof {
+                        lemma_has_bs_witness(s, i0, bsp2, bsp2 + 1);
+                        if str_end(s, bsp2).is_some() { lemma_str_end_bounds(s, bsp2); lemma_has_bs_witness(s, i0, bsp2, str_end(s, bsp2).unwrap()); }
+                    }
 //@loop 2
             invariant self.pinv(), self.same_doc(old(self)), i0 <= self.read.idx(), start == i0, i0 == old(self).read.idx(),
                 str_end(s, i0) == str_end(s, self.read.idx() as int),
